@@ -268,6 +268,19 @@ func (e *Effects) originRec(fn *ssa.Function, v ssa.Value, cache map[ssa.Value]o
 						out.union(e.storedInto(fn, al, cache, onstack))
 						continue
 					}
+					// loading out of an object a callee has just made: besides what the callee allocated, the object may
+					// hold whatever arguments the callee keeps (a wrapper made by Wrap(t) holds t)
+					if call, ok := root.(*ssa.Call); ok {
+						if f := call.Call.StaticCallee(); f != nil {
+							if cs := e.sums[f]; cs != nil && len(call.Call.Args) == len(f.Params) {
+								for k := range f.Params {
+									if cs.Escapes[k] && pointerLike(call.Call.Args[k].Type()) {
+										out.union(rec(call.Call.Args[k]).deep())
+									}
+								}
+							}
+						}
+					}
 					o.Deep = true
 					out.add(o)
 					continue
@@ -796,6 +809,17 @@ func (e *Effects) instantiate(fn *ssa.Function, s *summary, callee *ssa.Function
 			continue
 		}
 		orgs := e.originOf(fn, act)
+		if ef.Org.Deep {
+			// what is reached THROUGH an object a callee has just made includes the arguments that callee keeps in it
+			// (the wrapper made by Wrap(t) holds t: an effect deep below the wrapper may be an effect on t)
+			extra := e.heldByFresh(fn, act)
+			if len(extra) > 0 {
+				merged := orgSet{}
+				merged.union(orgs)
+				merged.union(extra)
+				orgs = merged
+			}
+		}
 		// extend the field path when the actual is a field address of its root
 		pre, _, _ := fieldPathOf(act)
 		for o := range orgs {
@@ -878,4 +902,30 @@ func (e *Effects) siteCallsUnknown(fn *ssa.Function, ci ssa.CallInstruction) boo
 		return true
 	}
 	return true // call of a function value
+}
+
+// heldByFresh: v is (a phi of) the result of calls whose callee keeps some of its arguments in the object it
+// returns: the deep origins of those arguments.
+func (e *Effects) heldByFresh(fn *ssa.Function, v ssa.Value) orgSet {
+	out := orgSet{}
+	for _, x := range phiClosure(v) {
+		call, ok := x.(*ssa.Call)
+		if !ok {
+			continue
+		}
+		f := call.Call.StaticCallee()
+		if f == nil {
+			continue
+		}
+		cs := e.sums[f]
+		if cs == nil || len(call.Call.Args) != len(f.Params) {
+			continue
+		}
+		for k := range f.Params {
+			if cs.Escapes[k] && pointerLike(call.Call.Args[k].Type()) {
+				out.union(e.originOf(fn, call.Call.Args[k]).deep())
+			}
+		}
+	}
+	return out
 }
